@@ -155,6 +155,96 @@ func robustMutate(r *Rng, seed []byte, textual bool) []byte {
 	return b
 }
 
+var robustDbLines = []string{"P:x", "P:y", "V:1.0-r0", "A:x86_64", "C:Q1p78yvTLG094tHE1+dToJGbmYzQE=", "D:a b", "p:c=1", "i:a", "F:usr", "F:usr/lib", "F:", "M:0:0:755", "M:0:0", "R:f", "R:../g", "R:", "a:0:0:644", "a:1000:1000:4755", "Z:Q1p78yvTLG094tHE1+dToJGbmYzQE=", "Z:Q1", "t:1700000000", "S:1", "I:2", "k:10", "", "", ""}
+
+// robustLineSoup: a random sequence of well-formed db lines, in any order, over several stanzas
+func robustLineSoup(r *Rng) []byte {
+	n := r.Range(2, 14)
+	var b strings.Builder
+	for i := 0; i < n; i++ {
+		b.WriteString(Pick(r, robustDbLines))
+		b.WriteByte('\n')
+	}
+	if r.Bool() {
+		b.WriteByte('\n')
+	}
+	return []byte(b.String())
+}
+
+// robustTarPatch rewrites one header of an uncompressed tar (size, name or type flag) and fixes its checksum
+func robustTarPatch(r *Rng, t []byte) []byte {
+	b := append([]byte(nil), t...)
+	// header offsets: walk the archive by the recorded sizes
+	var offs []int
+	for off := 0; off+512 <= len(b); {
+		if bytes.Equal(b[off:off+512], make([]byte, 512)) {
+			break
+		}
+		offs = append(offs, off)
+		var size int64
+		fmt.Sscanf(strings.TrimRight(string(b[off+124:off+135]), " \x00"), "%o", &size)
+		off += 512 + int((size+511)/512*512)
+	}
+	if len(offs) == 0 {
+		return b
+	}
+	off := Pick(r, offs)
+	switch r.Intn(5) {
+	case 0:
+		copy(b[off+124:off+136], "77777777777\x00") // 8 GiB - 1
+	case 1:
+		// base-256 size: 2^62
+		copy(b[off+124:off+136], []byte{0x80, 0, 0, 0, 0x40, 0, 0, 0, 0, 0, 0, 0})
+	case 2:
+		// base-256 negative size
+		copy(b[off+124:off+136], []byte{0xff, 0xff, 0xff, 0xff, 0xff, 0xff, 0xff, 0xff, 0xff, 0xff, 0xff, 0xfe})
+	case 3:
+		name := Pick(r, robustHostileNames)
+		for i := 0; i < 100; i++ {
+			b[off+i] = 0
+		}
+		copy(b[off:off+100], name)
+	default:
+		b[off+156] = Pick(r, []byte{'0', '1', '2', '3', '5', 'x', 'g', 'L', 'K', 0})
+	}
+	// checksum
+	for i := 148; i < 156; i++ {
+		b[off+i] = ' '
+	}
+	sum := 0
+	for i := 0; i < 512; i++ {
+		sum += int(b[off+i])
+	}
+	copy(b[off+148:off+156], fmt.Sprintf("%06o\x00 ", sum))
+	if r.Chance(60) {
+		// the stream ends shortly after the patched header
+		end := off + 512 + r.Intn(600)
+		if end < len(b) {
+			b = b[:end]
+		}
+	}
+	return b
+}
+
+// robustGunzipMembers splits a concatenation of gzip members into their decompressed payloads
+func robustGunzipMembers(b []byte) [][]byte {
+	var out [][]byte
+	br := bytes.NewReader(b)
+	for br.Len() > 0 {
+		zr, err := gzip.NewReader(br)
+		if err != nil {
+			break
+		}
+		zr.Multistream(false)
+		p, err := io.ReadAll(zr)
+		if err != nil {
+			break
+		}
+		out = append(out, p)
+	}
+	return out
+}
+
 var robustHostileNames = []string{"", ".", "./", "..", "../x", "a/..", "a/../..", "/", "//", "/abs", "a//b", "a/./b", "usr/../x", strings.Repeat("d/", 200) + "f", "a\x00b", "\xff\xfe", ".hidden", "./.", "a/", "lib/apk/db/installed"}
 
 var robustBoundary = []string{"", "\n", "\x00", "a", ":", "\x1f\x8b", "\x1f\x8b\x08\x00\x00\x00\x00\x00\x00\xff", "\n\n\n", "=", "{", "[", "---", "P:", "C:Q1", "'", "K='", "K='x", "K=\"", "include: @SELF@\n"}
@@ -192,7 +282,11 @@ func (robustSuite) Gen(r *Rng, i int, tier string) any {
 		case 2, 3:
 			add("index", robustMutate(r, []byte(robustIndexSeed), true))
 		case 4, 5:
-			add("installed", robustMutate(r, []byte(robustInstalledSeed), true))
+			if r.Chance(35) {
+				add(Pick(r, []string{"installed", "installed", "index"}), robustLineSoup(r))
+			} else {
+				add("installed", robustMutate(r, []byte(robustInstalledSeed), true))
+			}
 		case 6:
 			add("passwd", robustMutate(r, []byte(robustPasswdSeed), true))
 		case 7:
@@ -208,13 +302,33 @@ func (robustSuite) Gen(r *Rng, i int, tier string) any {
 		case 10:
 			add("imageconfig", robustMutate(r, []byte(robustYamlSeed), true))
 		case 11:
+			if r.Chance(50) {
+				// tar-level: one header of the (single-member) archive rewritten
+				ms := robustGunzipMembers(robustIndexArchiveSeed())
+				if len(ms) == 1 {
+					add("indexarchive", gz(robustTarPatch(r, ms[0])))
+					break
+				}
+			}
 			add("indexarchive", robustMutate(r, robustIndexArchiveSeed(), false))
 		case 12:
-			if r.Bool() {
-				add("split", robustMutate(r, robustApkSeed(), false))
-			} else {
-				add("expandapk", robustMutate(r, robustApkSeed(), false))
+			rd := Pick(r, []string{"split", "expandapk"})
+			if r.Chance(50) {
+				ms := robustGunzipMembers(robustApkSeed())
+				if len(ms) >= 2 {
+					k := r.Intn(len(ms))
+					var out []byte
+					for i, m := range ms {
+						if i == k {
+							m = robustTarPatch(r, m)
+						}
+						out = append(out, gz(m)...)
+					}
+					add(rd, out)
+					break
+				}
 			}
+			add(rd, robustMutate(r, robustApkSeed(), false))
 		default:
 			// hostile tar entry names through the lazy in-memory file system and the installed-db writer
 			names := []string{Pick(r, robustHostileNames), Pick(r, robustHostileNames)}
